@@ -1,6 +1,7 @@
 import NrDaemon.Model.Proc
 import NrDaemon.Gen.SwapTable
 import NrDaemon.Props.C07
+import NrDaemon.Lemmas.Ledger
 /-!
   C02 — failed deliveries are retried only as specified, with bounded attempts.
   `Gen.Status.shouldSaveHarvestData` and `Gen.SwapTable.failedHarvest` are regenerated from the Go source.
@@ -118,3 +119,73 @@ theorem C02_metrics_attempts_bounded (limit : Nat) (rename : String → String) 
   simp only [metricChain]
   rw [(C02_metrics_step limit _ _).1 (by rw [hk limit (Nat.le_refl _)]; omega)]
   simp [MTable.applyRules, MTable.applyRulesOrd, MTable.new]
+
+/-! ## Over all histories of one event category (`Model/Ledger.lean`) -/
+
+def CatM.AttemptsOk (s : CatM) : Prop := s.cur.failed ≤ s.limit ∧ ∀ p ∈ s.inflight, p.failed ≤ s.limit
+
+theorem catStep_attempts (s : CatM) (ev : CatEvent) (hcap : s.cur.cap = s.cap) (h : s.AttemptsOk) :
+    (s.step ev).AttemptsOk ∧ (s.step ev).limit = s.limit ∧ (s.step ev).cur.cap = (s.step ev).cap := by
+  obtain ⟨h1, h2⟩ := h
+  have erase_ok : ∀ i, ∀ p ∈ s.inflight.eraseIdx i, p.failed ≤ s.limit :=
+    fun i p hp => h2 p (List.mem_of_mem_eraseIdx hp)
+  cases ev with
+  | offer e => exact ⟨⟨h1, h2⟩, rfl, hcap⟩
+  | harvest =>
+    simp only [CatM.step]
+    split
+    · exact ⟨⟨h1, h2⟩, rfl, hcap⟩
+    · refine ⟨⟨by simp [Res.new], ?_⟩, rfl, rfl⟩
+      intro p hp
+      rcases List.mem_append.mp hp with hp | hp
+      · exact h2 p hp
+      · simp at hp; subst hp; exact h1
+  | ack i =>
+    simp only [CatM.step]
+    split
+    · exact ⟨⟨h1, erase_ok i⟩, rfl, hcap⟩
+    · exact ⟨⟨h1, h2⟩, rfl, hcap⟩
+  | retry i =>
+    simp only [CatM.step]
+    split
+    · next p hp =>
+      refine ⟨⟨?_, erase_ok i⟩, rfl, ?_⟩
+      · unfold Res.mergeFailed
+        dsimp only
+        split
+        · exact h1
+        · simp only [Res.merge]; omega
+      · unfold Res.mergeFailed
+        dsimp only
+        split
+        · exact hcap
+        · simpa [Res.merge] using hcap
+    · exact ⟨⟨h1, h2⟩, rfl, hcap⟩
+  | fatal i =>
+    simp only [CatM.step]
+    split
+    · exact ⟨⟨h1, erase_ok i⟩, rfl, hcap⟩
+    · exact ⟨⟨h1, h2⟩, rfl, hcap⟩
+
+/-- **C02 (bounded attempts, all histories).**  In every history of offers, harvests, acknowledgements, retryable and
+fatal failures of one event category — any interleaving, any number of requests in flight — the failed-delivery counter of
+the current reservoir and of every payload in flight never exceeds the attempt limit: data is sent at most `limit + 1`
+times before it is given up. -/
+theorem C02_attempts_bounded_all_histories (cap limit : Nat) (evs : List CatEvent) :
+    let s := (CatM.init cap limit).run evs
+    s.cur.failed ≤ limit ∧ ∀ p ∈ s.inflight, p.failed ≤ limit := by
+  have key : ∀ (evs : List CatEvent) (s : CatM), s.cur.cap = s.cap → s.AttemptsOk →
+      (s.run evs).AttemptsOk ∧ (s.run evs).limit = s.limit := by
+    intro evs
+    induction evs with
+    | nil => intro s _ h; exact ⟨h, rfl⟩
+    | cons e es ih =>
+      intro s hc h
+      obtain ⟨h1, h2, h3⟩ := catStep_attempts s e hc h
+      obtain ⟨i1, i2⟩ := ih (s.step e) h3 h1
+      exact ⟨i1, i2.trans h2⟩
+  obtain ⟨⟨a, b⟩, hl⟩ := key evs (CatM.init cap limit) rfl ⟨by simp [CatM.init, Res.new], by simp [CatM.init]⟩
+  have hl' : ((CatM.init cap limit).run evs).limit = limit := hl
+  dsimp only
+  rw [hl'] at a b
+  exact ⟨a, b⟩
